@@ -2,6 +2,7 @@ import FuModel.Proofs.ExecBatch
 import FuModel.Proofs.ExecLossless
 import FuModel.Proofs.ExecWalk
 import FuModel.Proofs.NoPrune
+import FuModel.Proofs.ExecExact
 
 /-!
 # C08 — property theorems (proofs in `Proofs/ExecBatch.lean`, `Proofs/ExecLossless.lean`)
@@ -86,4 +87,37 @@ theorem C08_whole_walk_pre (id : Nat) (dir : Bool) (cmd : Bytes) (fixed : List B
       pendingOf id r.gs = [] :=
   whole_walk_lossless id dir cmd fixed c m start root g hall hone hmem hb
     (Or.inl ⟨hpre, pruneOk_of_noPrune (refCfg c) m hnp start⟩)
+/-- **`find START TEST -exec CMD FIXED {} +` / `-execdir … +`, exactly** (statement and proof:
+    `whole_walk_exact` in `Proofs/ExecExact.lean`): for every tree, follow mode, depth range and
+    traversal order, every test that only looks at the entry and every state in which nothing has
+    panicked and an open batch has at most the room of a fresh command line (`IX`; the initial
+    state is one), the paths delivered to started commands after the walk of a starting point are
+    those handed over before followed by **exactly** the paths of the in-range reachable entries
+    that satisfy the test and fit on a command line of their own — in visit order, each once — and
+    nothing is left waiting. -/
+theorem C08_exact (id : Nat) (dir : Bool) (cmd : Bytes) (fixed : List Bytes) (B : Nat) (nb : Batch)
+    (hnb : newBatch B cmd fixed = some nb) (t : Prim) (ht : isTestP t = true)
+    (c : Config) (start : Bytes) (root : Node Attr) (g : GS) (hI : IX id B nb g)
+    (hH : (refCfg c).depthFirst = true → ¬ HRootLink (refCfg c) (if c.sorted then sortNode root else root)) :
+    let n := if c.sorted then sortNode root else root
+    let r := processDir c (.and [.prim t, .prim (.execMulti id dir true cmd fixed)]) start (some root) g
+    delivered (cmd :: fixed) r.gs =
+      handed (cmd :: fixed) id g ++ (visitsN (refCfg c) [] 0 n).flatMap (handedBy dir nb t start) ∧
+    pendingOf id r.gs = [] :=
+  whole_walk_exact id dir cmd fixed B nb hnb t ht c start root g hI hH
+
+/-- non-vacuity: the initial state satisfies `IX`, and for `find t -type f -exec c {} +` on a
+    two-level tree the right-hand side is the two files (kernel evaluation) -/
+example :
+    let nb : Batch := (newBatch ({} : GS).budget [99] []).getD ⟨[], 0, none⟩
+    let root : Node Attr := .dir [116] false true { lty := 'd', sty := 'd' }
+      [.leaf [97] .plain { lty := 'f', sty := 'f' }, .dir [98] false true { lty := 'd', sty := 'd' } [.leaf [99] .plain { lty := 'f', sty := 'f' }]]
+    newBatch ({} : GS).budget [99] [] = some nb ∧ IX 0 ({} : GS).budget nb {} ∧
+      (visitsN (refCfg {}) [] 0 root).flatMap (handedBy false nb (.typeIs 'f') [116]) = [[116, 47, 97], [116, 47, 98, 47, 99]] := by
+  intro nb root
+  refine ⟨?_, ⟨rfl, rfl, fun b hb => by cases hb⟩, by decide⟩
+  have h : (newBatch ({} : GS).budget [99] []).isSome = true := by decide
+  cases hn : newBatch ({} : GS).budget [99] [] with
+  | some b => simp [nb, hn]
+  | none => rw [hn] at h; cases h
 end FuModel.Find.Run
